@@ -8,7 +8,7 @@ from typing import Dict, List, Optional, Tuple
 from .. import gf2
 from ..astutil import Inliner, attr_chain, call_name, const_value, match, returns_of, stmts_of
 from ..closedform import classify
-from ..constfold import Folder, Unfoldable, registered_buffers, straight_line_names
+from ..constfold import PySeq, Folder, Unfoldable, registered_buffers, straight_line_names
 from ..core import OK, UNDECIDED, VIOLATION, AnalysisError, ClassInfo, FuncInfo, Repo, Report, unparse
 from ..speciallint import lint_value_keyed
 from .c15 import tv_eval
@@ -82,7 +82,54 @@ def fold_buffers(ci: ClassInfo, method: str, atoms: Dict[str, bool], attrs: Dict
             out[bname] = folder.fold(expr)
         except Unfoldable as exc:
             out[bname] = exc
+    if any(isinstance(v_, Exception) for v_ in out.values()):
+        # not a chain of plain definitions (tuple unpacking, a loop ...): the method body is run as a whole
+        ran = run_buffers(fi, atoms, attrs)
+        for k_, v_ in ran.items():
+            if isinstance(out.get(k_), Exception) or k_ not in out:
+                out[k_] = v_
     return out
+
+
+def run_buffers(fi: FuncInfo, atoms: Dict[str, bool], attrs: Dict[str, object]) -> Dict[str, object]:
+    """Buffers registered by a constructor-like method, from running its body (own arithmetic): `self.register_buffer(name,
+    expr)` is read as the binding of `name`, `super().__init__(...)` is skipped, parameters get their defaults unless the
+    configuration names them."""
+    import copy
+
+    from ..frag import FragRaise, FragReturn, run_fragment
+
+    class _Reg(ast.NodeTransformer):
+        def visit_Expr(self, nd):
+            c = nd.value
+            if isinstance(c, ast.Call) and attr_chain(c.func) == "self.register_buffer" and len(c.args) >= 2 and isinstance(c.args[0], ast.Constant):
+                return ast.copy_location(ast.Assign(targets=[ast.Name(id=f"__buf_{c.args[0].value}", ctx=ast.Store())], value=c.args[1]), nd)
+            if isinstance(c, ast.Call) and unparse(c.func) == "super().__init__":
+                return ast.copy_location(ast.Pass(), nd)
+            return nd
+
+    body = [ast.fix_missing_locations(_Reg().visit(copy.deepcopy(st))) for st in fi.body]
+    names: Dict[str, object] = {}
+    a = fi.node.args
+    pos = [x.arg for x in a.args if x.arg != "self"]
+    for p_, d_ in zip(pos[len(pos) - len(a.defaults):], a.defaults):
+        try:
+            names[p_] = Folder({}, {}).fold(d_)
+        except Unfoldable:
+            pass
+    for k_, v_ in atoms.items():
+        if k_.isidentifier():
+            names[k_] = v_
+    names.setdefault("args", PySeq([]))
+    names.setdefault("kwargs", {})
+    live = {k_: v_ for k_, v_ in attrs.items()}
+    try:
+        env = run_fragment(body, names, live, materialise=True, max_steps=200000, attrs_live=True)
+    except FragReturn as ret:
+        env = getattr(ret, "env", {})
+    except (Unfoldable, FragRaise, TypeError, ValueError, IndexError):
+        return {}
+    return {k_[6:]: v_ for k_, v_ in env.items() if k_.startswith("__buf_") and isinstance(v_, (list, int, float, complex))}
 
 
 def rule_literal_tables(repo: Repo, rep: Report) -> int:
